@@ -48,6 +48,8 @@ MayStop(o, n)  == (EffTot(o) # None /\ MayGe(o, PT(o, n + 1), EffTot(o)))  \/ (o
    (C07_nit fails on it) is still judged on the points it has *)
 NT(o) == IF o.nit <= Len(o.traj) THEN o.nit ELSE Len(o.traj)
 
+NTL(o) == IF Len(o.res) <= Len(o.tsave) THEN Len(o.res) ELSE Len(o.tsave)
+
 (* ---- C07 (i): each full step advances the time by dt (by its minimum for an array) *)
 C07_advance(o) == \A n \in 1..NT(o) : Nr(o, PT(o, n + 1), o.traj[n].tend)
 
@@ -97,6 +99,21 @@ FailedC07(o) == {c \in {"C07_advance", "C07_nit", "C07_times", "C07_ontraj", "C0
                        [] c = "C07_finite"  -> C07_finite(o)
                        [] c = "C07_forward" -> C07_forward(o)
                        [] c = "C07_caller"  -> C07_caller(o)}
+
+-----------------------------------------------------------------------------
+(* solve_legacy (outside the listed properties; clause names L_xxx): one result per save time, in order; a save time not   *)
+(* earlier than the current time is reached exactly and the result IS the trajectory point after that pass; an earlier    *)
+(* one returns the current state unmoved; every pass is a forward step of at most one CFL step; nit counts the passes      *)
+L_count(o)   == Len(o.res) = Len(o.tsave)
+L_times(o)   == \A k \in 1..NTL(o) :
+                   LET before == IF k = 1 THEN o.t0 ELSE o.res[k - 1].t
+                   IN IF MayGe(o, o.tsave[k], before) THEN Nr(o, o.res[k].t, o.tsave[k]) ELSE Nr(o, o.res[k].t, before)
+L_ontraj(o)  == \A k \in 1..Len(o.res) : \E n \in 2..(Len(o.traj) + 1) : n \in o.res[k].srcs /\ Nr(o, o.res[k].t, PT(o, n))
+L_forward(o) == o.negsteps = 0 /\ \A n \in 1..Len(o.traj) : MayGe(o, PT(o, n + 1), PT(o, n)) /\ MayLe(o, PT(o, n + 1), o.traj[n].tend)
+L_nit(o)     == o.nit = Len(o.traj)
+FailedLegacy(o) == {c \in {"L_count", "L_times", "L_ontraj", "L_forward", "L_nit", "L_caller"} :
+                      ~ CASE c = "L_count" -> L_count(o) [] c = "L_times" -> L_times(o) [] c = "L_ontraj" -> L_ontraj(o)
+                          [] c = "L_forward" -> L_forward(o) [] c = "L_nit" -> L_nit(o) [] c = "L_caller" -> o.caller}
 
 -----------------------------------------------------------------------------
 (* C08 (iv) monitors: entries exactly at the iterations n = 0..nit with      *)
